@@ -298,10 +298,14 @@ def runOpAlg (op : String) (a : Array Val) : R (Array Val × Option (Array Val))
   | "ple" | "ple_russian" =>
     -- canonical: rank and column rank profile
     let M ← argMat a 0
+    let P ← argPerm a 1; let Q ← argPerm a 2
+    if op == "ple" ∧ (P.size ≠ M.nrows ∨ Q.size ≠ M.ncols) then throw "die" else
     let prof := M.toB.rankProfile
     pure (same #[.int prof.length, .perm prof.toArray])
   | "pluq" | "pluq_russian" =>
     let M ← argMat a 0
+    let P ← argPerm a 1; let Q ← argPerm a 2
+    if op == "pluq" ∧ (P.size ≠ M.nrows ∨ Q.size ≠ M.ncols) then throw "die" else
     pure (same #[.int M.toB.rank])
   | "check_ple" | "check_pluq" =>
     -- A0 S P Q r
@@ -371,13 +375,71 @@ def runOpAlg (op : String) (a : Array Val) : R (Array Val × Option (Array Val))
     pure (same #[vb ok])
   | _ => throw "unknown-op"
 
+open Mzd BMat in
+def runOpFin (op : String) (a : Array Val) : R (Array Val × Option (Array Val)) := do
+  match op with
+  | "codebook" =>
+    let k ← argNat a 0
+    pure (same #[.perm (buildOrd k), .perm (buildInc k)])
+  | "gray_code" => pure (#[.int (grayCode (← argNat a 0) (← argNat a 1))],
+      some #[.int ((← argNat a 0) ^^^ ((← argNat a 0) >>> 1))])
+  | "opt_k" => pure (same #[.int (optK (← argNat a 0) (← argNat a 1))])
+  | "mask" =>
+    -- kind: 0 left, 1 right, 2 middle ; spec value built bit by bit
+    let kind ← argNat a 0; let n ← argNat a 1; let off ← argNat a 2
+    let m := match kind with | 0 => leftMask n | 1 => rightMask n | _ => middleMask n off
+    let specBits : Nat := (List.range 64).foldl (fun acc p =>
+      let on : Bool := match kind with
+        | 0 => decide (p < n ∨ n = 0)   -- documented: n = 0 behaves like n = 64
+        | 1 => decide (64 - n ≤ p)
+        | _ => decide (off ≤ p ∧ p < off + n)
+      if on then acc ||| (1 <<< p) else acc) 0
+    pure (#[.word m], some #[.word (BitVec.ofNat 64 specBits)])
+  | "parity64" =>
+    let ws ← (List.range 64).mapM fun i => argWord a i
+    let buf : Nat → Word := fun i => ws.getD i 0
+    let spec : Nat := (List.range 64).foldl (fun acc i =>
+      let par := (List.range 64).foldl (fun p t => p != (buf i).getLsbD t) false
+      if par then acc ||| (1 <<< i) else acc) 0
+    pure (#[.word (parity64 buf)], some #[.word (BitVec.ofNat 64 spec)])
+  | "swap_bits" =>
+    let w ← argWord a 0
+    let spec : Nat := (List.range 64).foldl (fun acc p => if w.getLsbD (63 - p) then acc ||| (1 <<< p) else acc) 0
+    pure (#[.word (swapBits w)], some #[.word (BitVec.ofNat 64 spec)])
+  | "lesser_lsb" =>
+    let x ← argWord a 0; let y ← argWord a 1
+    let low (w : Word) : Nat := ((List.range 64).find? fun p => w.getLsbD p).getD 64
+    pure (#[vb (lesserLSB x y)], some #[vb (low x < low y)])
+  | "spread" | "shrink" =>
+    let w ← argWord a 0; let Q ← argPerm a 1; let len ← argNat a 2; let base ← argNat a 3
+    if op == "spread" then
+      let spec : Nat := (List.range len).foldl (fun acc i => if w.getLsbD i then acc ||| (1 <<< (Q.getD i 0 - base)) else acc) 0
+      pure (#[.word (spreadBits w Q.toList len base)], some #[.word (BitVec.ofNat 64 spec)])
+    else
+      let spec : Nat := (List.range len).foldl (fun acc i => if w.getLsbD (Q.getD i 0 - base) then acc ||| (1 <<< i) else acc) 0
+      pure (#[.word (shrinkBits w Q.toList len base)], some #[.word (BitVec.ofNat 64 spec)])
+  | "make_table" =>
+    -- M r c k : table rows as a matrix of M's width and the index array
+    let M ← argMat a 0; let r ← argNat a 1; let c ← argNat a 2; let k ← argNat a 3
+    let B := M.toB
+    let (T, L) := makeTable B.rows B.nrows B.ncols r c k (Array.replicate (2 ^ k) 0) (Array.replicate (2 ^ k) 0)
+    -- specification: entry x of the table (through L) is the sum of the rows selected by the bits of x
+    let specT : Array Nat := (Array.range (2 ^ k)).map fun x =>
+      (List.range k).foldl (fun acc j => if x.testBit j then acc ^^^ (B.row (r + j) &&& colMask c B.ncols) else acc) 0
+    let viaL : Array Nat := (Array.range (2 ^ k)).map fun x => T.getD (L.getD x 0) 0
+    pure (#[.mat (ofB ⟨2 ^ k, B.ncols, viaL⟩)], some #[.mat (ofB ⟨2 ^ k, B.ncols, specT⟩)])
+  | _ => throw "unknown-op"
+
 def mulOps : List String :=
   ["mul_naive", "addmul_naive", "mul_va", "mul_naive_t", "mul_m4rm", "addmul_m4rm", "mul", "addmul"]
 
 def runOp (op : String) (a : Array Val) : R (Array Val × Option (Array Val)) :=
   if mulOps.contains op then runOpMul op a else
   match runOpW op a with
-  | .error "unknown-op" => runOpAlg op a
+  | .error "unknown-op" =>
+    match runOpAlg op a with
+    | .error "unknown-op" => runOpFin op a
+    | r => r
   | r => r
 
 end M4ri
